@@ -90,7 +90,7 @@ func (data CreateTokenData) String() string {
 func (data CreateTokenData) CommissionData(price *commission.Price) *big.Int {
 	createTickerPrice := data.PayForSymbol(price)
 
-	return big.NewInt(0).Add(createTickerPrice, price.CreateCoin)
+	return big.NewInt(0).Add(createTickerPrice, price.CreateToken)
 }
 
 func (data CreateTokenData) PayForSymbol(price *commission.Price) *big.Int {
